@@ -46,8 +46,8 @@ func TestTriage(t *testing.T) {
 		t.Logf("GET /admin/config: %s leaks=%v", n, strings.Contains(rec.Body.String(), "S3CR3T-"+n))
 	}
 	for _, n := range []string{defs.ServerTokenKeySetting, defs.OAuthClientSecretSetting, defs.DefaultCredentialSetting} {
-		r := egorun.Run("import \"profile\"\nfunc main() {\n fmt.Println(profile.Get(\""+n+"\"))\n}\n", egorun.Config{Types: "dynamic"})
-		t.Logf("profile.Get(%s): leaks=%v (%q %v)", n, strings.Contains(r.Stdout, "S3CR3T-"), strings.TrimSpace(r.Stdout), r.RunErr)
+		r := egorun.Run("import \"profile\"\nfunc main() {\n fmt.Println(profile.Get(\""+n+"\"))\n}\n", egorun.Config{Types: "dynamic", Extensions: true, EntryPoint: "main"})
+		t.Logf("profile.Get(%s): leaks=%v (%q run=%v compile=%v panic=%v)", n, strings.Contains(r.Stdout, "S3CR3T-"), strings.TrimSpace(r.Stdout), r.RunErr, r.CompileErr, r.GoPanic)
 	}
 	d := dsns.NewDSN("x", "postgres", "db", "dbuser", `pa"ss<word`, "localhost", 5432, false, false)
 	cs, err := dsns.Connection(d)
